@@ -88,7 +88,7 @@ def run_shard(desc):
                     continue
                 for orient in range(2 ** b):
                     for ii, ids in enumerate(idl):
-                        d = dyn.build(topo, kt, orient, ids, (orient + ii) % n, labels=(dyn.LABELS_LIKE_IDS[:n] if ii % 2 else None), pal=pal)
+                        d = dyn.build(topo, kt, orient, ids, (orient + ii) % n, labels=dyn.labels_for(orient, ii, n), pal=pal)
                         judge_matrix(d, res)
     else:
         _, n, b, ti, k0, k1 = desc
